@@ -183,18 +183,26 @@ def rfail(run, p, cd):
                 env = dict(env)
                 rep = rep + reporters_in(st)
                 if isinstance(st, ast.Assign):
+                    # the right-hand side is evaluated with the names as they are before the assignment (same = same and ...)
+                    tv = truth(st.value, env) if isinstance(st.value, (ast.Constant, ast.Name, ast.UnaryOp, ast.BoolOp)) else None
+                    c_ = count_of(st.value, env)
                     for t_ in st.targets:
                         names = [t_] if isinstance(t_, ast.Name) else ([x for x in t_.elts if isinstance(x, ast.Name)] if isinstance(t_, (ast.Tuple, ast.List)) else [])
                         for nm in names:
                             env.pop(nm.id, None)
                             env.pop('#count:' + nm.id, None)
                             if isinstance(t_, ast.Name):
-                                tv = truth(st.value, env) if isinstance(st.value, (ast.Constant, ast.Name, ast.UnaryOp, ast.BoolOp)) else None
                                 if isinstance(st.value, ast.Constant) and isinstance(st.value.value, bool) or tv is not None:
                                     env[nm.id] = tv
-                                c_ = count_of(st.value, env)
                                 if c_ is not None:
                                     env['#count:' + nm.id] = c_
+                    if tv is None and isinstance(st.value, ast.BoolOp) and len(st.targets) == 1 and isinstance(st.targets[0], ast.Name):
+                        # a flag made from a conjunction whose value is not known is either true or false afterwards: both are followed
+                        for val in (True, False):
+                            e2 = dict(env)
+                            e2[st.targets[0].id] = val
+                            nxt.append((e2, rep))
+                        continue
                 nxt.append((env, rep))
             # merge identical states to keep the enumeration small
             seen = {}
